@@ -637,4 +637,64 @@ example (P : Iso3 ℚ) (a0 b0 : V3 ℚ) :
   rintro dir c ⟨x, y, rfl, rfl, rfl⟩
   exact le_refl _
 
+
+/-! ## 2-D twins of the GJK-route statements -/
+section twins
+/-- **2-D `closest_points_support_map_support_map`: the `GJKResult → ClosestPoints` mapping** (twin of `closestPointsSmSm3_cases`) -/
+theorem closestPointsSmSm2_cases (fs : V2 K → CSO2 K) (pos12 : Iso2 K) (m : K) (r : CP (V2 K)) (h : C03.Unit2 pos12) :
+    letI := fieldNum K sq
+    closestPointsSmSm2 fs pos12 m = some r →
+    let g := (gjkClosestPoints2 fs (some m) true (gjkStart2 fs pos12.t none Vs2.new)).1
+    (g = .intersection ∧ r = .intersecting) ∨ (∃ d, g = .noIntersection d ∧ r = .disjoint) ∨
+    (∃ p1 p2 d, g = .closest p1 p2 d ∧ r = .within p1 (pos12.invAct p2) ∧ gapL2 sq pos12 p1 (pos12.invAct p2) = (p2.sub p1).normSq) := by
+  letI := fieldNum K sq
+  intro hr
+  unfold closestPointsSmSm2 closestPointsSmSmWithParams2 at hr
+  intro g
+  have hg : g = (gjkClosestPoints2 fs (some m) true (gjkStart2 fs pos12.t none Vs2.new)).1 := rfl
+  rw [← hg] at hr
+  cases hgc : g with
+  | intersection => rw [hgc] at hr; simp only [Option.some.injEq] at hr; exact Or.inl ⟨rfl, hr.symm⟩
+  | noIntersection d => rw [hgc] at hr; simp only [Option.some.injEq] at hr; exact Or.inr (Or.inl ⟨d, rfl, hr.symm⟩)
+  | proximity d => rw [hgc] at hr; simp at hr
+  | panic => rw [hgc] at hr; simp at hr
+  | closest p1 p2 d =>
+    rw [hgc] at hr; simp only [Option.some.injEq] at hr
+    refine Or.inr (Or.inr ⟨p1, p2, d, rfl, hr.symm, ?_⟩)
+    unfold gapL2
+    rw [(C03.iso2_inverse_act sq pos12 p2 h).2.2.2]
+
+/-- **2-D `query::closest_points` through the GJK route answers `Disjoint` only when the placed shapes are farther apart than
+`max_dist`** (twin of `closestPointsWorld3_gjk_disjoint_sound`) -/
+theorem closestPointsWorld2_gjk_disjoint_sound (hs : LawfulSqrt sq) (A B : V2 K → Prop) (pos1 pos2 : Iso2 K) (g1 g2 : DSh2 K) (m : K)
+    (h1 : C03.Unit2 pos1) (hm : 0 ≤ m) :
+    letI := fieldNum K sq
+    letI := fieldBits K
+    Glue.dispatchCP2 (pos1.invMul pos2) g1 g2 m =
+      Glue.closestPointsSmSm2 (fromShapes2 g1.loc (g2.posed (pos1.invMul pos2))) (pos1.invMul pos2) m →
+    SupportsCSO2 (Obstacle2 sq A B (pos1.invMul pos2)) (fromShapes2 g1.loc (g2.posed (pos1.invMul pos2))) →
+    Glue.closestPointsWorld2 pos1 g1 pos2 g2 m = some .disjoint →
+    WorldSpec2 sq A B pos1 pos2 m .disjoint ∨
+      (gjkClosestPoints2 (fromShapes2 g1.loc (g2.posed (pos1.invMul pos2))) (some m) true
+        (gjkStart2 (fromShapes2 g1.loc (g2.posed (pos1.invMul pos2))) (pos1.invMul pos2).t none Vs2.new)).1 = .noIntersection ⟨1, 0⟩ := by
+  letI := fieldNum K sq
+  letI := fieldBits K
+  intro hroute hsup hw
+  unfold Glue.closestPointsWorld2 at hw
+  rw [hroute] at hw
+  cases hc : Glue.closestPointsSmSm2 (fromShapes2 g1.loc (g2.posed (pos1.invMul pos2))) (pos1.invMul pos2) m with
+  | none => rw [hc] at hw; simp at hw
+  | some r =>
+    rw [hc] at hw
+    simp only [Option.map_some, Option.some.injEq] at hw
+    cases r with
+    | intersecting => simp [Glue.transformBy2] at hw
+    | within p1 p2 => simp [Glue.transformBy2] at hw
+    | disjoint =>
+      rcases closestPointsSmSm2_disjoint_sound sq hs A B _ (pos1.invMul pos2) m hm hsup hc with h | h
+      · exact Or.inl (transformBy2_spec sq A B pos1 pos2 m .disjoint h1 h)
+      · exact Or.inr h
+
+end twins
+
 end C01
